@@ -130,7 +130,25 @@ class Conc:
             return self.eval(args[0], params)
         if name == ITER + "rev":
             return list(reversed(self.eval(args[0], params)))
-        if name in (ITER + "max_by", ITER + "min_by", ITER + "fold", ITER + "take_while", ITER + "skip_while"):
+        if name == ITER + "take_while":
+            res = []
+            for x in self.eval(args[0], params):
+                if not self.call(args[1], [x], params):
+                    break
+                res.append(x)
+            return res
+        if name == ITER + "skip_while":
+            xs = list(self.eval(args[0], params))
+            while xs and self.call(args[1], [xs[0]], params):
+                xs.pop(0)
+            return xs
+        if name == ITER + "chain":
+            return list(self.eval(args[0], params)) + list(self.eval(args[1], params))
+        if name == "core::iter::sources::once::once":
+            return [self.eval(args[0], params)]
+        if name == "core::iter::sources::empty::empty":
+            return []
+        if name in (ITER + "max_by", ITER + "min_by", ITER + "fold"):
             raise CannotEvaluate("iterator primitive %s has no contract in the model" % name)
         raise CannotEvaluate("call " + name)
 
